@@ -100,8 +100,23 @@ def rand_ops(rng, tier, nmax=14):
         ts = rand_ts(rng, prev[0] if prev else 0, state)
         force = rng.chance(1, 8)
         drop = rng.chance(1, 4)
+        if last and rng.chance(1, 7):
+            # same stream id and payload length as the last message of ANOTHER type (types sharing a chunk stream: a compressed
+            # header may omit the type only if it is the same)
+            otid, o = rng.choice(sorted(last.items()))
+            mates = {18: [19], 19: [18], 20: [17, 15, 22], 17: [20], 15: [20, 17], 22: [20], 2: [3, 4], 3: [4, 5], 4: [3, 6], 5: [4], 6: [5, 2]}
+            if otid in mates:
+                tid = rng.choice(mates[otid])
+            sid, pl, force = o[1], o[2], 0
+            ts = (o[0] + rng.choice([0, 20, state.get("step", 33)])) % M32
         ops.append("m:%d:%d:%d:%d%d:%s" % (ts, tid, sid, force, drop, pl))
         last[tid] = (ts, sid, pl)
+        if rng.chance(1, 9):
+            # a droppable twin: same type, stream and timestamp, both droppable (pieces of one frame); either may be withheld alone
+            pl2 = pl if rng.chance(1, 2) else rand_payload_spec(rng, min(cs, 5000), tier)
+            ops[-1] = "m:%d:%d:%d:01:%s" % (ts, tid, sid, pl)
+            ops.append("m:%d:%d:%d:01:%s" % (ts, tid, sid, pl2))
+            last[tid] = (ts, sid, pl2)
     return ops
 
 
@@ -171,10 +186,13 @@ def senc(rng, tier, interleave):
         c, f = pick_csid(rng)
         if c in used:
             continue
-        # provoke aliasing bugs: a second chunk stream exactly 256 apart
+        # provoke aliasing bugs: a second chunk stream exactly 256 apart, or 65536 apart (ids 65536..65599 exist: 64 + a 16-bit value)
         if rng.chance(1, 4) and c + 256 <= 65599 and (c + 256) not in used and len(streams) + 1 < nstreams:
             used.add(c + 256)
             streams.append({"csid": c + 256, "form": 3, "prev": None})
+        if rng.chance(1, 5) and 2 <= c <= 63 and (c + 65536) not in used and len(streams) + 1 < nstreams:
+            used.add(c + 65536)
+            streams.append({"csid": c + 65536, "form": 3, "prev": None})
         used.add(c)
         streams.append({"csid": c, "form": f, "prev": None})
     cs = 128
@@ -243,6 +261,9 @@ def senc(rng, tier, interleave):
         # in-band chunk size change between messages (only when nothing is in flight: applies to all streams)
         if not pending and rng.chance(1, 7):
             newcs = rng.choice([1, 2, 3, 7, 64, 128, 129, 1000, 4096, rng.range(1, 500)])
+            if rng.chance(1, 5):
+                # every announced size up to 2^31 - 1 is legal, also those above the 24-bit message length limit
+                newcs = rng.choice([65536, 16777215, 16777216, 0x1000080, 0x7FFFFFFF, rng.range(1 << 24, (1 << 31) - 1)])
             st2 = {"csid": 2, "form": 1, "prev": None}
             for s in streams:
                 if s["csid"] == 2:
